@@ -185,6 +185,78 @@ fn p_sdi_fixed(b: &[u8], _: u64) -> R {
     let f = i.read_var_int().map_err(es)?;
     Ok(vec![a as i128, c as i128, d as i128, e as i128, f as i128, i.pos() as i128])
 }
+// the same length-prefixed / explicit-length reads through every DataInput implementation
+// (K: 0 slice, 1 std::io::Read, 2 RangeReader over a cursor, 3 mmap file)
+fn with_input<const K: usize, T>(b: &[u8], f: impl FnOnce(&mut dyn FnMut(&mut dyn FnMut(&mut dyn DynIn) -> R) -> R) -> T) -> T {
+    let mut call = |g: &mut dyn FnMut(&mut dyn DynIn) -> R| -> R {
+        match K {
+            0 => g(&mut SliceDataInput::new(b)),
+            1 => g(&mut zipora::io::ReaderDataInput::new(std::io::Cursor::new(b))),
+            2 => g(&mut zipora::io::RangeReader::new(std::io::Cursor::new(b), 0, b.len() as u64)),
+            _ => {
+                let p = tmp_path("dyn_in");
+                std::fs::write(&p, b).map_err(es)?;
+                let r = match zipora::io::MmapDataInput::open(&p) { Ok(mut i) => g(&mut i), Err(e) => Err(es(e)) };
+                let _ = std::fs::remove_file(&p);
+                r
+            }
+        }
+    };
+    f(&mut call)
+}
+/// object-safe view of the DataInput methods the cells use
+trait DynIn {
+    fn lp_bytes(&mut self) -> zipora::Result<Vec<u8>>;
+    fn lp_string(&mut self) -> zipora::Result<String>;
+    fn string(&mut self, n: usize) -> zipora::Result<String>;
+    fn vec(&mut self, n: usize) -> zipora::Result<Vec<u8>>;
+    fn var(&mut self) -> zipora::Result<u64>;
+    fn skip_n(&mut self, n: usize) -> zipora::Result<()>;
+    fn u8_(&mut self) -> zipora::Result<u8>;
+    fn de_string(&mut self) -> zipora::Result<String>;
+    fn de_vec_string(&mut self) -> zipora::Result<Vec<String>>;
+}
+impl<I: DataInput> DynIn for I {
+    fn lp_bytes(&mut self) -> zipora::Result<Vec<u8>> { self.read_length_prefixed_bytes() }
+    fn lp_string(&mut self) -> zipora::Result<String> { self.read_length_prefixed_string() }
+    fn string(&mut self, n: usize) -> zipora::Result<String> { self.read_string(n) }
+    fn vec(&mut self, n: usize) -> zipora::Result<Vec<u8>> { self.read_vec(n) }
+    fn var(&mut self) -> zipora::Result<u64> { self.read_var_int() }
+    fn skip_n(&mut self, n: usize) -> zipora::Result<()> { self.skip(n) }
+    fn u8_(&mut self) -> zipora::Result<u8> { self.read_u8() }
+    fn de_string(&mut self) -> zipora::Result<String> { <String as SerializableType>::deserialize(self) }
+    fn de_vec_string(&mut self) -> zipora::Result<Vec<String>> { <Vec<String> as SerializableType>::deserialize(self) }
+}
+fn p_in_lp_bytes<const K: usize>(b: &[u8], _: u64) -> R {
+    with_input::<K, R>(b, |call| call(&mut |i| i.lp_bytes().map(|v| obs_bytes(&v)).map_err(es)))
+}
+fn p_in_lp_string<const K: usize>(b: &[u8], _: u64) -> R {
+    with_input::<K, R>(b, |call| call(&mut |i| i.lp_string().map(|v| vec![v.len() as i128]).map_err(es)))
+}
+fn p_in_string<const K: usize>(b: &[u8], arg: u64) -> R {
+    with_input::<K, R>(b, |call| call(&mut |i| i.string(usz(arg)).map(|v| vec![v.len() as i128]).map_err(es)))
+}
+fn p_in_vec<const K: usize>(b: &[u8], arg: u64) -> R {
+    with_input::<K, R>(b, |call| call(&mut |i| i.vec(usz(arg)).map(|v| obs_bytes(&v)).map_err(es)))
+}
+fn p_in_skip<const K: usize>(b: &[u8], _: u64) -> R {
+    with_input::<K, R>(b, |call| call(&mut |i| {
+        let n = i.var().map_err(es)?;
+        i.skip_n(n as usize).map_err(es)?;
+        let x = i.u8_().map_err(es)?;
+        Ok(vec![n as i128, x as i128])
+    }))
+}
+fn p_in_de_string<const K: usize>(b: &[u8], _: u64) -> R {
+    with_input::<K, R>(b, |call| call(&mut |i| i.de_string().map(|v| vec![v.len() as i128]).map_err(es)))
+}
+fn p_in_de_vec_string<const K: usize>(b: &[u8], _: u64) -> R {
+    with_input::<K, R>(b, |call| call(&mut |i| i.de_vec_string().map(|v| vec![v.len() as i128]).map_err(es)))
+}
+fn seeds_raw(_r: &mut Rng) -> Vec<Seed> {
+    vec![Seed { bytes: b"hello, world".to_vec(), len: 12 }, Seed { bytes: vec![b'x'; 300], len: 300 }, Seed { bytes: vec![], len: 0 }]
+}
+fn seeds_de_vec_string(_r: &mut Rng) -> Vec<Seed> { vec![s0(ser(&vec!["a".to_string(), "bcd".to_string(), String::new()])), s0(ser(&Vec::<String>::new()))] }
 fn seeds_lp(_r: &mut Rng) -> Vec<Seed> {
     use zipora::io::{DataOutput, VecDataOutput};
     let mut v = vec![];
@@ -909,6 +981,17 @@ pub fn parsers() -> Vec<Parser> {
         P!("Compressor/dictionary/decompress/single_symbol_model", 0, false, false, p_comp_mono::<5>, seeds_comp_mono::<5>),
         P!("Compressor/hybrid/decompress/single_symbol_model", 0, false, false, p_comp_mono::<7>, seeds_comp_mono::<7>),
     ]);
+    const KINDS: [&str; 4] = ["SliceDataInput", "ReaderDataInput", "RangeReader", "MmapDataInput"];
+    macro_rules! inputs { ($($k:literal),*) => { $(
+        if $k != 0 { v.push(P!(Box::leak(format!("{}/read_length_prefixed_bytes", KINDS[$k]).into_boxed_str()), 0, false, $k != 3, p_in_lp_bytes::<$k>, seeds_lp)); }
+        if $k != 0 { v.push(P!(Box::leak(format!("{}/read_length_prefixed_string", KINDS[$k]).into_boxed_str()), 0, false, $k != 3, p_in_lp_string::<$k>, seeds_lp)); }
+        v.push(P!(Box::leak(format!("{}/read_string(len)", KINDS[$k]).into_boxed_str()), 0, true, $k != 3, p_in_string::<$k>, seeds_raw));
+        v.push(P!(Box::leak(format!("{}/read_vec(len)", KINDS[$k]).into_boxed_str()), 0, true, $k != 3, p_in_vec::<$k>, seeds_raw));
+        if $k != 0 { v.push(P!(Box::leak(format!("{}/var_int+skip+read_u8", KINDS[$k]).into_boxed_str()), 0, false, $k != 3, p_in_skip::<$k>, seeds_sdi_skip)); }
+        v.push(P!(Box::leak(format!("{}/String::deserialize", KINDS[$k]).into_boxed_str()), 0, false, $k != 3, p_in_de_string::<$k>, seeds_lp));
+        v.push(P!(Box::leak(format!("{}/Vec<String>::deserialize", KINDS[$k]).into_boxed_str()), 0, false, $k != 3, p_in_de_vec_string::<$k>, seeds_de_vec_string));
+    )* } }
+    inputs!(0, 1, 2, 3);
     macro_rules! comp { ($($a:literal),*) => { $(
         v.push(P!(Box::leak(format!("Compressor/{}/decompress", ALGS[$a].0).into_boxed_str()), 0, false, false, p_comp::<$a>, seeds_comp::<$a>));
     )* } }
